@@ -624,6 +624,25 @@ func run(cs vrt.Case) vrt.Obs {
 	case "straddle":
 		runStraddle(c, p.Idx)
 	case "random":
+		if p.Idx%5 == 4 {
+			// every fifth batch: four composers set and read bodies of their own messages at the same time (a
+			// gateway composing for several users); no value is shared between them, so each must see exactly
+			// what it would see alone
+			vrt.Parallel(&o, 4, func(g int, po *vrt.Obs) {
+				pc := &ctx{o: po, seen: map[string]int{}}
+				r := vrt.Rand(p.Seed, "c18par", p.Idx*4+g)
+				for i := 0; i < p.N/2; i++ {
+					t := genTextRandom(r, i)
+					eval(pc, t)
+					if i%10 == 7 && len(t) < 20000 {
+						evalCharset(pc, charsetNames[r.Intn(len(charsetNames))], t)
+					}
+					po.Count("texts_composed_while_other_composers_were_active", 1)
+				}
+			})
+			o.Sample = map[string]any{"kind": "random-concurrent", "composers": 4, "texts_each": p.N / 2}
+			return o
+		}
 		r := vrt.Rand(p.Seed, "c18", p.Idx)
 		var first string
 		for i := 0; i < p.N; i++ {
